@@ -429,6 +429,49 @@ def _nth(fnode, call):
     return f'#{[i for i, c in enumerate(same) if c is call][0]}'
 
 
+def identity_fields(repo, ci):
+    """If ci overrides __eq__/__hash__ purely by identity of wrapped attributes -- __eq__ returns a conjunction of a type test
+    and `self.X is other.X` terms, __hash__ returns hash of a tuple of id(self.X) over the same X -- return that set of X;
+    otherwise None (value comparison or unrecognised form)."""
+    eq = repo.resolve_method(ci, '__eq__')
+    hs = repo.resolve_method(ci, '__hash__')
+    if eq is None or hs is None or len(eq.params) != 2:
+        return None
+    other = eq.params[1]
+    body = U.body_nodoc(eq.node)
+    if len(body) != 1 or not isinstance(body[0], ast.Return) or body[0].value is None:
+        return None
+    fields = set()
+    for t in U.conjuncts(body[0].value):
+        if isinstance(t, ast.Compare) and len(t.ops) == 1 and isinstance(t.ops[0], ast.Is):
+            a, b = t.left, t.comparators[0]
+            if isinstance(a, ast.Attribute) and isinstance(b, ast.Attribute) and a.attr == b.attr and \
+                    {norm(a.value), norm(b.value)} == {'self', other}:
+                fields.add(a.attr)
+                continue
+            if norm(a) in (f'type({other})', f'type(self)') or norm(b) in (f'type({other})', 'type(self)'):
+                continue
+            return None
+        if isinstance(t, ast.Call) and norm(t.func) == 'isinstance' and norm(t.args[0]) == other:
+            continue
+        return None
+    hb = U.body_nodoc(hs.node)
+    if len(hb) != 1 or not isinstance(hb[0], ast.Return) or not isinstance(hb[0].value, ast.Call) or norm(hb[0].value.func) != 'hash':
+        return None
+    arg = hb[0].value.args[0]
+    elts = arg.elts if isinstance(arg, ast.Tuple) else [arg]
+    hf = set()
+    for e in elts:
+        if isinstance(e, ast.Call) and norm(e.func) == 'id' and U.is_self_attr(e.args[0]):
+            hf.add(e.args[0].attr)
+        else:
+            return None
+    # equal objects must hash equal: hashed fields are a subset of the compared ones
+    if not fields or not hf <= fields:
+        return None
+    return fields
+
+
 def rule_items(ctx):
     ctx.rule('C09.items', 'objects constructed afresh for every insertion into a TaskQueue (score entries, NRT clock tasks) have identity '
                           'semantics: no __eq__/__hash__ override, otherwise two equal items count as one and the second add() removes the first')
@@ -454,8 +497,11 @@ def rule_items(ctx):
                         seen.add(cname)
                         n += 1
                         over = [f'{c_.name}.{m}' for c_ in ctx.repo.mro(ci) for m in ('__eq__', '__hash__') if m in c_.methods]
-                        ctx.ob('C09.items', f'{ci.fq}:identity-semantics', not over,
-                               f'{ci.qualname} is constructed per insertion but defines {over}: equal items are treated as a re-insertion of the same item', ci.node, ci.module)
+                        idf = identity_fields(ctx.repo, ci) if over else None
+                        ctx.ob('C09.items', f'{ci.fq}:identity-semantics', not over or idf is not None,
+                               f'{ci.qualname} is constructed per insertion but defines {over} comparing by value: equal items are treated '
+                               f'as a re-insertion of the same item (only identity of wrapped objects may be compared; found identity fields {idf})',
+                               ci.node, ci.module)
     ctx.require(n >= 2, 'C09.items', f'only {n} per-insertion item classes found')
 
 
@@ -501,3 +547,7 @@ MUTANTS = [
 ]
 
 REPAIRS = []
+
+EQUIV = [
+    dict(name='rename locals of TaskQueue.add', file='sc3/base/_taskq.py', start='    def add(self, prio, task):', end='    def remove(self, task):', rename=[('entry', 'rec'), ('count', 'seq')]),
+]
